@@ -206,6 +206,13 @@ func extraPrograms() []*Prog {
 		add(term.Op("not", B, term.Op("and", B, kb(), b(), b())))
 		add(term.Op("+", I, ki(), term.Const(1), term.Const(2), term.Const(3), term.Const(4), term.Const(5), term.Const(6), term.Const(7), n()))
 	}
+	// xor next to and/or (it is not a short-circuit group: nothing may be merged into or out of it)
+	add(term.Op("or", B, term.Op("xor", B, b(), b()), b()))
+	add(term.Op("xor", B, term.Op("or", B, b(), b()), b()))
+	add(term.Op("and", B, term.Op("xor", B, b(), b()), b()))
+	add(term.Op("xor", B, term.Op("and", B, b(), b()), term.Op("xor", B, b(), b())))
+	add(term.Op("or", B, b(), term.Op("xor", B, b(), term.Op("or", B, b(), b()))))
+	add(term.Op("xor", B, term.Op("xor", B, b(), b()), b()))
 	// the empty list literal (typed as an empty string list by the parser) as
 	// the collection of `in` / `overlap` with operands of either element type
 	{
